@@ -17,6 +17,7 @@ package txharness
 
 import (
 	"bytes"
+	"context"
 	stdsql "database/sql"
 
 	_ "modernc.org/sqlite"
@@ -47,7 +48,7 @@ func (c17Engine) Name() string     { return "tx-fault" }
 func (c17Engine) Property() string { return "C17" }
 func (c17Engine) WarmupRuns() int  { return 1 }
 
-var c17Kinds = []string{"error", "busy", "full", "commit-open"}
+var c17Kinds = []string{"error", "busy", "full", "commit-open", "cancel"}
 
 // Ops = tasks of the payload: K = opcode; A = [table(0/1), variant, filterVariant, errorCondition(0 none,1 false,2 true,3 empty,4 malformed,5 fails at evaluation)]
 func (c17Engine) Generate(seed uint64, tier string) *simrun.Case {
@@ -361,10 +362,16 @@ func c17Execute(dir string, payload []byte, plan simsql.Plan) (c17Run, error) {
 	}
 	session := &router.Session{ID: 1, User: "admin", Admin: true, Authenticated: true, URLParts: map[string]any{"dsn": "d1"}, Permissions: []string{defs.RootPermission}}
 	req := httptest.NewRequest("POST", "/dsns/d1/tables/@transaction", bytes.NewReader(payload))
+	// fault kind "cancel": the client disconnects at the chosen driver call (the request context is cancelled)
+	ctx, cancel := context.WithCancel(req.Context())
+	defer cancel()
+	req = req.WithContext(ctx)
+	simsql.OnCancel = cancel
 	w := httptest.NewRecorder()
 	simsql.Install(plan)
 	status := scripting.Handler(session, w, req)
 	trace, fired, conns, txs := simsql.Uninstall()
+	simsql.OnCancel = nil
 	body, _ := io.ReadAll(w.Body)
 	state, lock := c17Dump(path)
 	if w.Code != 0 && w.Code != status && status == 0 {
@@ -476,7 +483,11 @@ func (c17Engine) Execute(t *testing.T, c *simrun.Case, keepLog bool) *simrun.Out
 		if keepLog {
 			out.Log = append(out.Log, fmt.Sprintf("fault %s at call %d: status %d state %s lock=%q open conns=%d txs=%d", p.kind, p.call, r.status, r.state, r.lock, r.conns, r.txs))
 		}
-		check(fmt.Sprintf("fault %s injected at driver call %d (%s)", p.kind, p.call, ref.trace[p.call-1]), r)
+		at := "beyond the reference run's calls"
+		if p.call-1 < len(ref.trace) {
+			at = ref.trace[p.call-1]
+		}
+		check(fmt.Sprintf("fault %s injected at driver call %d (%s)", p.kind, p.call, at), r)
 		if out.Violation != "" {
 			c.Knobs["fault_call"] = int64(p.call)
 			for i, k := range c17Kinds {
